@@ -52,12 +52,3 @@ Proof.
   - unfold version_size. cbv [Generated.Tables.size_mul Generated.Tables.size_add]. lia.
 Qed.
 
-Lemma build_uses_it_c09 : forall input o q, o_mode o = None -> build input o = Ok q -> q_mode q = best_encoding input.
-Proof. intros input o q Hm H. destruct (build_ok_fields input o q H) as (A & _). rewrite A. unfold eff_mode. now rewrite Hm. Qed.
-
-Lemma forced_mask_c11 : forall input o q k, o_mask o = Some k -> build input o = Ok q -> q_mask q = k.
-Proof. intros input o q k Hk H. now apply (proj2 (proj2 (proj2 (proj2 (proj2 (build_ok_fields input o q H)))))). Qed.
-
-Lemma default_level_is_Q_c04 : forall o, o_ecl o = None -> eff_level o = EQ.
-Proof. intros o H. unfold eff_level. now rewrite H. Qed.
-
